@@ -220,6 +220,12 @@ func newFixture(mode, impl string, limit int64) *fixture {
 	if err != nil {
 		panic(err)
 	}
+	return newFixtureAt(dir, mode, impl, limit)
+}
+
+// a cache + servers on an EXISTING directory (a restart, possibly under another storage mode)
+func newFixtureAt(dir, mode, impl string, limit int64) *fixture {
+	var err error
 	sl := log.New(io.Discard, "", 0)
 	c, err := disk.New(dir, maxSizeBytes, disk.WithAccessLogger(sl), disk.WithStorageMode(mode),
 		disk.WithZstdImplementation(impl), disk.WithMaxBlobSize(limit))
@@ -249,11 +255,16 @@ func newFixture(mode, impl string, limit int64) *fixture {
 	return f
 }
 
-func (f *fixture) close() {
+// stop the servers; the cache directory stays
+func (f *fixture) shutdown() {
 	_ = f.conn.Close()
 	f.srv.Stop()
 	f.hs.Close()
 	f.up.Close()
+}
+
+func (f *fixture) close() {
+	f.shutdown()
 	_ = os.RemoveAll(f.dir)
 }
 
